@@ -48,7 +48,8 @@ func RangesToString(ranges []Range) string {
 				s += strconv.Itoa(r.begin)
 			}
 
-			if r.begin != -1 {
+			// "-1.." is "-1"; any other range has both parts
+			if r.begin != -1 || r.end != rangeEllipsis {
 				s += ".."
 				if r.end != rangeEllipsis {
 					s += strconv.Itoa(r.end)
